@@ -1,0 +1,15 @@
+//go:build !verif
+
+// Package verifhook provides labelled schedule points for the verification
+// harness in /verif. With the "verif" build tag a harness can install a callback
+// at a label; without the tag every call compiles to nothing.
+package verifhook
+
+// Enabled reports whether hooks are compiled in.
+const Enabled = false
+
+// Set does nothing without the verif build tag.
+func Set(label string, f func()) {}
+
+// Point does nothing without the verif build tag.
+func Point(label string) {}
